@@ -201,10 +201,21 @@ func c10Main(rc *RunCtx) {
 			op.Hdr.Name, op.Hdr.Rrtype = ".", dns.TypeOPT
 			op.SetUDPSize(1232)
 			ans.Extra = append(ans.Extra, op)
+			if simrt.Choose(3) == 0 {
+				// glue beside the OPT and a second OPT (a sloppy upstream, or a plugin
+				// that put one back): SetResponse pops one OPT only, so the answer
+				// reaches the cache's store path with an OPT still in it
+				ans.Extra = append(ans.Extra, &dns.A{Hdr: dns.RR_Header{Name: "glue.test.", Rrtype: dns.TypeA, Class: dns.ClassINET, Ttl: ttls[len(ttls)-1]}, A: net.IPv4(10, 8, 8, 8)})
+				op2 := new(dns.OPT)
+				op2.Hdr.Name, op2.Hdr.Rrtype = ".", dns.TypeOPT
+				op2.SetUDPSize(4096)
+				ans.Extra = append(ans.Extra, op2)
+				simrt.Fault("answer_with_two_opts_and_glue")
+			}
 		}
 		o.orig = ans
 		// the cache will store exactly this answer (minus OPT) when the chain returns
-		nv := &c10ver{V: nver, Snap: packOrPanic(stripOpt(ans)), At: simrt.S.Elapsed()}
+		nv := &c10ver{V: nver, Snap: packOrPanic(stripOpt(ans)), At: simrt.S.Elapsed(), Key: c10KeyOf(qc.Q())}
 		raceSafeStore(vers, nver, nv)
 		qc.SetResponse(ans)
 		return nil
@@ -272,6 +283,10 @@ func c10Main(rc *RunCtx) {
 				}
 				if ver == nil {
 					rc.Fail("hit_without_known_version", "key k%d: hit %s does not carry the version marker of any stored answer", key, msgBrief(o.hit))
+					return
+				}
+				if ver.Key != key {
+					rc.Fail("hit_belongs_to_other_question", "query for k%d was served the stored answer of k%d (version %d): %s", key, ver.Key, v, msgBrief(o.hit))
 					return
 				}
 				ref := new(dns.Msg)
